@@ -165,6 +165,9 @@ def parse_vspec(path):
             cur_fn["r12"] = True
         elif head == "r24":
             cur_fn["r24"] = True
+        elif head == "r25":
+            # r25 <ordinal> <<< proof text >>>: desugar the <ordinal>-th `E?` of the function (rule R25), with a proof block on its Err exit
+            cur_fn.setdefault("r25", {})[int(rest)] = blk or ""
         elif head == "r15":
             cur_fn.setdefault("r15", []).append(rest)
         elif head == "r17":
@@ -492,6 +495,26 @@ class UnitGen:
                                       "file": src.rel, "line": src.line_of(cs)})
             if k24 == 0:
                 raise Undecided(f"fn {qual}: R24 requested but no `if let Entry::Occupied(mut x) = m.entry(k)` found (lost anchor)")
+        # R25: `E?` (E: Result<T, Err>, in a function returning Result<_, Err> with the SAME error type) ->
+        # `(match E { Ok(vx_t) => vx_t, Err(vx_e) => { <proof hint> return Err(vx_e); } })`: the definition of `?` where
+        # `From::from` is the identity (a different error type does not type-check after the rewrite). Exists so that a proof
+        # hint can be given on the early-exit path; the hint is ghost code only.
+        if fs.get("r25"):
+            tries = [n for n in nodes if n["kind"] == "try" and not n["in_closure"]]
+            tries.sort(key=lambda n: n["q"][0])
+            for k, hint in sorted(fs["r25"].items()):
+                if k >= len(tries):
+                    raise Undecided(f"fn {qual}: R25 ordinal {k} not found (lost anchor)")
+                n = tries[k]
+                s0, e0 = n["range"]
+                qs, qe = n["q"]
+                edits.append((s0, s0, "(match ", "R25"))
+                segs = self._emit_spec(hint, qual, "proof") if hint.strip() else []
+                edits.append((qs, qs, f" {{ Ok(vx_t{k}) => vx_t{k}, Err(vx_e{k}) => {{", "R25"))
+                edits.append((qs, qs, ("MULTI", segs), "proof"))
+                edits.append((qs, qe, f" return Err(vx_e{k}); }} }})", "R25"))
+                self.rewrites.append({"rule": "R25", "what": f"`E?` #{k} -> match E {{ Ok(v) => v, Err(e) => {{ return Err(e); }} }} in {qual}",
+                                      "file": src.rel, "line": src.line_of(s0)})
         # R18: `match E { P if G => A, _ => B }` (exactly these two arms) -> `if let P = E { if G { A } else { B } } else { B }`
         # (the installed Verus refuses a match arm that has both a guard and a by-mutable-reference binding). The guard is
         # evaluated exactly once on the path where P matches, as in the original; B is duplicated textually.
